@@ -158,7 +158,7 @@ theorem to_schema_typed (o : Options) (h0 : o.overwrites = []) {xs : List SVal} 
 /-- C01's `Safe` as a DECIDABLE predicate on the schema (`Lemmas/C06SafeS.lean`): no dictionary with non-nullable keys
 where a nullable struct's `serialize_default` can reach it (through struct children and the first real variant of a
 union) -/
-def safeSchema (fields : List Field) : Bool := safeFs (Fields.ofList fields)
+def safeSchema (fields : List Field) : Bool := Lemmas.C06.safeFs (Fields.ofList fields)
 
 /-- for a traced schema, C01's `Safe` of the fresh root builder IS `safeSchema` (exact) -/
 theorem fromSamples_safe_iff (o : Options) (h0 : o.overwrites = []) {xs : List SVal} {fields : List Field}
